@@ -18,7 +18,7 @@ import (
 
 func init() {
 	register("C03", func(c *Ctx) { runE2E(c, "C03") })
-	register("C01", func(c *Ctx) { runE2E(c, "C01"); runC01Race(c); runC02Stage(c, "C01"); runC01XFS(c) })
+	register("C01", func(c *Ctx) { runE2E(c, "C01"); runC01Race(c); runC02Stage(c, "C01"); runC01XFS(c); runC01Overlap(c) })
 	register("C02", func(c *Ctx) { runE2E(c, "C02"); runC02Stage(c, "C02") })
 	register("C05", func(c *Ctx) { runE2E(c, "C05"); runC05Stage(c, "C05"); runC05Cache(c) })
 	register("C08", func(c *Ctx) { runE2E(c, "C08"); runC08HTTP(c) })
